@@ -90,6 +90,32 @@ class Src:
         return [a for a in self.index["attrs"] if s <= a["span"][0] and a["span"][1] <= e]
 
 
+def serde_signature(src, it):
+    """The serde attributes of an item (whitespace-normalised, in order) and which serde derives it has."""
+    sig = []
+    for a in src.attrs_in(it["span"][0], it["span"][1]):
+        nm = a["name"].split("::")[-1]
+        txt = re.sub(r"\s+", "", src.text(*a["span"]))
+        if nm == "serde":
+            sig.append(txt)
+        elif nm == "derive":
+            ds = sorted(set(re.findall(r"\w+", txt)) & {"Serialize", "Deserialize"})
+            if ds:
+                sig.append("derive:" + ",".join(ds))
+    return sig
+
+
+_ATTR_BASELINE = None
+
+
+def attr_baseline():
+    global _ATTR_BASELINE
+    if _ATTR_BASELINE is None:
+        p = os.path.join(VERIF, "specs", "attr_baseline.json")
+        _ATTR_BASELINE = json.load(open(p)) if os.path.exists(p) else {}
+    return _ATTR_BASELINE
+
+
 class Piece:
     __slots__ = ("text", "src", "start", "tag", "fn")
 
@@ -448,6 +474,14 @@ class Unit:
                 self.raw(" }\n")
                 self._log("E13", src, s, src.text(s, e)[:70], "exec const + reflection contract + spec fn " + name + "__ns()")
                 return it
+        if it["kind"] in ("struct", "enum"):
+            # E1 drops serde attributes; the (de)serialization assumptions of env/ were stated for the
+            # attributes recorded in specs/attr_baseline.json -- any other set leaves them unjustified
+            base = attr_baseline().get(f"{src.rel}::{it.get('qual')}")
+            now = serde_signature(src, it)
+            if base is not None and base != now:
+                raise Undecided(f"E1: the serde attributes of {it.get('qual')} ({src.rel}) are not the ones the (de)serialization "
+                                f"assumptions were stated for: {now} instead of {base}")
         if extra_attr:
             self.raw(extra_attr + "\n")
         self._apply(src, s, e, self._strip_attrs_edits(src, s, e))
